@@ -1,27 +1,8 @@
-(* Driver for the extracted Coq model (model.ml).  Reads the same script files as the Rust harness
-   (/verif/harness/mod.rs) and prints traces in the same textual form.  Hand-written glue: number
-   conversions, hex, the script reader and the printers of observations. *)
-open Model
-
-let rec pos_of_int (i : int) : positive =
-  if i = 1 then XH else if i land 1 = 0 then XO (pos_of_int (i lsr 1)) else XI (pos_of_int (i lsr 1))
-let n_of_int (i : int) : n = if i = 0 then N0 else Npos (pos_of_int i)
-let rec int_of_pos (p : positive) : int =
-  match p with XH -> 1 | XO q -> 2 * int_of_pos q | XI q -> 2 * int_of_pos q + 1
-let int_of_n (x : n) : int = match x with N0 -> 0 | Npos p -> int_of_pos p
-let rec nat_of_int (i : int) : nat = if i = 0 then O else S (nat_of_int (i - 1))
-let rec int_of_nat (x : nat) : int = match x with O -> 0 | S y -> 1 + int_of_nat y
-
-let unhex (s : string) : n list =
-  if s = "-" then [] else begin
-    let len = String.length s in
-    if len mod 2 <> 0 then failwith "odd hex";
-    let rec go i acc = if i < 0 then acc
-      else go (i - 2) (n_of_int (int_of_string ("0x" ^ String.sub s i 2)) :: acc) in
-    go (len - 2) []
-  end
-let hex (l : n list) : string =
-  if l = [] then "-" else String.concat "" (List.map (fun b -> Printf.sprintf "%02x" (int_of_n b)) l)
+(* Driver for the extracted Coq models.  Reads the same script files as the Rust harness
+   (/verif/harness/mod.rs) and prints traces in the same textual form.  This file: the script
+   reader and the engine registry.  Each engine eng_<name>.ml is compiled together with the model
+   extracted from coq/Extract/roots/<name>.txt (module Model_<name>, visible to the engine as
+   `Model`) and with conv.inc (number conversions, hex) - see tools/driver.py build_model. *)
 
 type script = { id : string; engine : string; cfg : (string * string) list; ops : string list list }
 
